@@ -40,6 +40,34 @@ theorem main_zero (P : Prims V) (T : List (Nat × Bool)) (cfg : Cfg) : Main P T 
 section step
 variable {P : Prims V} {T : List (Nat × Bool)} {cfg : Cfg} {n : Nat}
 
+theorem checked_main (ih : Main P T cfg n) (miss : Err) : ∀ (items : List (Option Expr × (V → Except Err V))) (st : St V),
+    Inv T st →
+    evalChecked (evalExpr P cfg n) miss items st = evalChecked (evalExpr P plain n) miss items st ∧
+      Inv T (evalChecked (evalExpr P plain n) miss items st).2
+  | [], st, h => ⟨rfl, h⟩
+  | (none, _) :: _, st, h => ⟨rfl, h⟩
+  | (some e, chk) :: rest, st, h => by
+      simp only [evalChecked]
+      have h1 := ih.expr e st h
+      rw [h1.1]
+      generalize evalExpr P plain n e st = r1 at h1 ⊢
+      obtain ⟨x, st1⟩ := r1
+      cases x with
+      | error er => exact ⟨rfl, h1.2⟩
+      | ok v =>
+        simp only []
+        cases chk v with
+        | error er => exact ⟨rfl, h1.2⟩
+        | ok v' =>
+          simp only []
+          have h2 := checked_main ih miss rest st1 h1.2
+          rw [h2.1]
+          generalize evalChecked (evalExpr P plain n) miss rest st1 = r2 at h2 ⊢
+          obtain ⟨y, st2⟩ := r2
+          cases y with
+          | error er => exact ⟨rfl, h2.2⟩
+          | ok vs => exact ⟨rfl, h2.2⟩
+
 theorem step_list (ih : Main P T cfg n) : ∀ (es : List Expr) (st : St V), Inv T st →
     evalList P cfg (n + 1) es st = evalList P plain (n + 1) es st ∧ Inv T (evalList P plain (n + 1) es st).2
   | [], st, h => by simp [evalList, h]
@@ -198,10 +226,10 @@ theorem step_stmt (ih : Main P T cfg n) : ∀ (s : Stmt) (st : St V), ConsStmt T
         | none => exact ⟨by first | rfl | trivial, h1.2, by intro hn; cases hn⟩
         | some rp =>
           obtain ⟨root, path⟩ := rp
-          have h2 := ih.list path st1 h1.2
+          have h2 := checked_main ih P.argMissing (pathItems P.idx path) st1 h1.2
           simp only []
           rw [h2.1]
-          generalize evalList P plain n path st1 = r2 at h2 ⊢
+          generalize evalChecked (evalExpr P plain n) P.argMissing (pathItems P.idx path) st1 = r2 at h2 ⊢
           obtain ⟨r21, st2⟩ := r2
           cases r21 with
           | error er => exact ⟨by first | rfl | trivial, h2.2, by intro hn; cases hn⟩
@@ -481,18 +509,30 @@ theorem step_expr (hc : Harmless T cfg) (ih : Main P T cfg n) : ∀ (e : Expr) (
       cases P.isMut field with
       | false =>
         simp only [Bool.false_eq_true, ↓reduceIte]
-        have h1 := ih.list (o :: args) st h
+        have h1 := ih.expr o st h
         rw [h1.1]
-        generalize evalList P plain n (o :: args) st = r1 at h1 ⊢
+        generalize evalExpr P plain n o st = r1 at h1 ⊢
         obtain ⟨r11, st1⟩ := r1
         cases r11 with
         | error er => exact ⟨by first | rfl | trivial, h1.2⟩
-        | ok vs => exact ⟨by first | rfl | trivial, h1.2⟩
+        | ok recv =>
+          simp only []
+          cases P.memberSel field recv with
+          | error er => exact ⟨by first | rfl | trivial, h1.2⟩
+          | ok idx =>
+            simp only []
+            have h2 := checked_main ih P.argMissing (selArgs args idx) st1 h1.2
+            rw [h2.1]
+            generalize evalChecked (evalExpr P plain n) P.argMissing (selArgs args idx) st1 = r2 at h2 ⊢
+            obtain ⟨r21, st2⟩ := r2
+            cases r21 with
+            | error er => exact ⟨by first | rfl | trivial, h2.2⟩
+            | ok vs => exact ⟨by first | rfl | trivial, h2.2⟩
       | true =>
         simp only [↓reduceIte]
-        have h1 := ih.list args st h
+        have h1 := checked_main ih P.argMissing (stepArgs args (P.mutSteps field)) st h
         rw [h1.1]
-        generalize evalList P plain n args st = r1 at h1 ⊢
+        generalize evalChecked (evalExpr P plain n) P.argMissing (stepArgs args (P.mutSteps field)) st = r1 at h1 ⊢
         obtain ⟨r11, st1⟩ := r1
         cases r11 with
         | error er => exact ⟨by first | rfl | trivial, h1.2⟩
@@ -502,10 +542,10 @@ theorem step_expr (hc : Harmless T cfg) (ih : Main P T cfg n) : ∀ (e : Expr) (
           | none => exact ⟨by first | rfl | trivial, h1.2⟩
           | some rp =>
             obtain ⟨root, path⟩ := rp
-            have h2 := ih.list path st1 h1.2
+            have h2 := checked_main ih P.argMissing (pathItems P.idx path) st1 h1.2
             simp only []
             rw [h2.1]
-            generalize evalList P plain n path st1 = r2 at h2 ⊢
+            generalize evalChecked (evalExpr P plain n) P.argMissing (pathItems P.idx path) st1 = r2 at h2 ⊢
             obtain ⟨r21, st2⟩ := r2
             cases r21 with
             | error er => exact ⟨by first | rfl | trivial, h2.2⟩
